@@ -116,7 +116,10 @@ CHECKS = {
          "exhaustive enumeration judged by TLC (PredictTrace, ClientTrace ReadsExactlyFrame)"),
  "C15": ("ClientTxn", "model_checking",
          "ThreadsMC: every interleaving of 2-4 caller threads x 2-3 transactions (Acquire, Send, Recv, Release) keeps mutual exclusion, "
-         "own replies, no loss/duplication and completes (liveness); a missing lock or a lock held only around send is rejected. Real "
+         "own replies, no loss/duplication and completes (liveness); a missing lock or a lock held only around send is rejected. "
+         "ThreadsImplMC is the implementation-shaped model (lock, connect check/open, send, receive, dropped transmission -> back-off -> "
+         "retransmission, failing transport -> close -> reconnect) and rejects connect outside the lock, a lock released during the "
+         "back-off, a lock wait that times out and a lock re-created by close(). Real "
          "threads run on one real ModbusTcpClient under a deterministic scheduler (pre-emption at connect/send/select/recv/virtual sleep "
          "and every lock operation, replies of different lengths and latencies): every placement of one pre-emption per thread plus seeded "
          "random and strided schedules; TLC checks Mutex / OwnReply / NoLoss / NoDup / NoDeadlock on each recorded trace, and the same "
